@@ -49,7 +49,7 @@ MUTANTS = [
     ("c02_firewall_reverse_direction", ["C02"], NW,
      "        return service in self.firewall[(src_subnet, dest_subnet)]",
      "        return service in self.firewall[(dest_subnet, src_subnet)]"),
-    ("c02_skip_remote_permission", [], NW,
+    ("c02_skip_remote_permission", ["C02"], NW,
      "        if action.is_remote() and not has_req_permission:",
      "        if False and not has_req_permission:"),
     ("c02_all_subnets_public", ["C02", "C03"], NW,
@@ -73,7 +73,7 @@ MUTANTS = [
            or not state.host_discovered(action.target):""",
      """        if not state.host_reachable(action.target) \\
            and not state.host_discovered(action.target):"""),
-    ("c02_pivot_ignores_access", [], NW,
+    ("c02_pivot_ignores_access", ["C02"], NW,
      "            if state.host_has_access(src_addr, action.req_access):\n                return True",
      "            if True:\n                return True"),
     # ---------------- C03
